@@ -970,10 +970,11 @@ fn pan(x: &mut Exec) -> Res {
                 }
                 6 => {
                     // panic inside a select arm is re-raised in the poller (this coroutine)
-                    let _ = select!(
+                    let tok = select!(
                         _ = { coroutine::sleep(Duration::from_micros(100)); if true { panic!("P{}", i) } } => {},
                         _ = coroutine::sleep(Duration::from_millis(30)) => {}
                     );
+                    return usize::MAX - 20 - tok; // not reached if the arm's panic is re-raised
                 }
                 _ => {}
             }
@@ -1021,7 +1022,8 @@ fn pan(x: &mut Exec) -> Res {
                     return viol(format!("coroutine {} kind {}: join() did not deliver its panic payload (cancel={})", i, kind, is_cancel_panic(&e)));
                 }
             }
-            (0..=3 | 5 | 6 | 9, Ok(_)) => return viol(format!("coroutine {} kind {}: panic not reported by join()", i, kind)),
+            (6, Ok(v)) => return viol(format!("coroutine {}: the panic of its select arm 0 (after a 100us sleep) was not re-raised; select! returned token {} (1 = the 30ms sleeper won)", i, (usize::MAX - 20).wrapping_sub(v))),
+            (0..=3 | 5 | 9, Ok(_)) => return viol(format!("coroutine {} kind {}: panic not reported by join()", i, kind)),
             (4, Err(e)) => {
                 if !is_cancel_panic(&e) {
                     return viol("cancelled lock holder: join() did not report Cancel");
@@ -1405,7 +1407,9 @@ fn scope(x: &mut Exec) -> Res {
     if let Some(r) = res {
         match (fault, r) {
             (0, Err(_)) => return viol("scope without fault: owner died"),
-            (2, Ok(_)) => return viol("owner panic inside the scope body was swallowed"),
+            // shape 1: the panic sits in the bottom half of the second select arm and only
+            // happens if that arm wins against the join! arm
+            (2, Ok(_)) if shape != 1 => return viol("owner panic inside the scope body was swallowed"),
             (2, Err(e)) => {
                 if e.downcast_ref::<&str>() != Some(&"OWNER") {
                     return viol("owner panic payload was replaced");
